@@ -307,7 +307,8 @@ def run(ctx):
         res = ctx.tlc("Equilibria_MC", "Equilibria_MC_%s.cfg" % sl,
                       require_actions=(acts + (["Again"] if history else [])) if ctx.quick else (),
                       require_cases=1000, timeout=1500)
-        cases = res.cases
+        # TLC prints cases in worker order: sort, so that the seed alone determines the sample
+        cases = sorted(res.cases, key=lambda c: core.stable_hash(c["in"]))
         if pool_cases is None:
             pool_cases = cases
         kinds = collections.Counter(c["in"]["pert"]["kind"] for c in cases)
